@@ -39,6 +39,7 @@ What the model cannot exhibit (DESIGN section 5):
   (cancellation while it is inside the *body* is the fault `bodyCancelled`, see `cancel_exit_clean`).
 -/
 import AioMySensors.Lemmas.Lifecycle
+import AioMySensors.Lemmas.LifecycleChurn
 
 namespace AioMySensors.C16
 open AioMySensors AioMySensors.Lifecycle
@@ -281,7 +282,110 @@ theorem exit_completes (f : Faults) (t v : Nat) (cs : List Choice) :
   obtain ⟨cs2, h⟩ := completes _ (inv_run _ cs (inv_init f t v))
   exact ⟨cs2, by rw [run_append]; exact h⟩
 
+/-! ### Other tasks change the registry, at any moment
+
+`Choice.mutate` lets the registry change while the body runs.  In an application other tasks change it too - the
+listener registers a node that presents itself or asks for an id, a node is dropped - and at ANY moment: during
+`load`, while a periodic save is between two of its file operations, while `__aexit__` waits for the cancelled saver
+or writes the final save.  `ChoiceC.churn` (Lemmas/LifecycleChurn.lean) is such a change, allowed in every state; the
+theorems below quantify over all schedules with any number of them anywhere.  They hold because a save takes its
+snapshot of the registry in ONE atomic block and no decision of either coroutine depends on the registry; a `save`
+that suspends in the middle of its snapshot is a different system (the correspondence run drives registries of up to
+254 nodes with a task that changes them at every loop iteration of entering, saving and leaving:
+harness/props/churn.py). -/
+
+/-- **Clean exit under churn.**  As `exit_clean`, for every schedule in which other tasks change the registry at
+arbitrary moments: no task alive, disconnect attempted, the right exception (never the saver's `CancelledError`), and
+the final save completed - the file then holds a registry version `w` that existed (`w ≤ reg`; versions only grow) -
+unless the final save itself failed. -/
+theorem churn_exit_clean (f : Faults) (t v : Nat) (cs : List ChoiceC)
+    (hfin : (runC (init f t v) cs).main = .finished) :
+    let s := runC (init f t v) cs
+    s.saver.alive = false ∧
+    (s.entered = true → s.disconnectTried = true) ∧
+    (s.started = true →
+      (s.finalSaveDone = true ∧ ∃ w, s.file = .holds w ∧ w ≤ s.reg) ∨ (f.finalSaveFails = true ∧ s.outcome = some .saveErr)) ∧
+    s.outcome = expectedOutcome f ∧
+    s.outcome ≠ some .cancelled := by
+  intro s
+  obtain ⟨hm, hsv, _, _, _, _, hst, hen, _, hdt, hfd, hout, _⟩ := ctl_runC f t v cs
+  have hfin' : (run (init f t 0) (baseOf cs)).main = .finished := hm ▸ hfin
+  obtain ⟨h1, h2, h3, h4, h5⟩ := exit_clean f t 0 (baseOf cs) hfin'
+  have hfile : FileInv s := fileInv_runC f t v cs
+  unfold FileInv at hfile
+  rw [show s.main = .finished from hfin] at hfile
+  refine ⟨hsv ▸ h1, fun he => hdt ▸ h2 (hen ▸ he), fun hs => ?_, hout ▸ h4, hout ▸ h5⟩
+  rcases h3 (hst ▸ hs) with ⟨h6, _⟩ | ⟨h6, h7⟩
+  · have hd : s.finalSaveDone = true := hfd ▸ h6
+    exact Or.inl ⟨hd, s.fsnap, (hfile hd).2, (hfile hd).1⟩
+  · exact Or.inr ⟨h6, hout ▸ h7⟩
+
+/-- **The final save holds the registry as of exit, under churn.**  Take any moment after the body has ended and
+before the final save's snapshot (`as`: the schedule up to there - the context is about to disconnect, or `stop` is
+about to cancel the saver or is waiting for it) and any continuation `bs` that completes the statement with the final
+save done.  The file then holds a registry version `w` with `reg(at that moment) ≤ w ≤ reg(at the end)`: a state the
+registry really was in during the exit, no older than the registry as the body left it.  Without churn in `bs` the two
+bounds coincide (`exit_clean`). -/
+theorem churn_final_save_window (f : Faults) (t v : Nat) (as bs : List ChoiceC) :
+    let s1 := runC (init f t v) as
+    let s2 := runC (init f t v) (as ++ bs)
+    (s1.main = .disconnect ∨ s1.main = .stopCancel ∨ s1.main = .stopAwait) →
+    s2.main = .finished → s2.finalSaveDone = true →
+    ∃ w, s2.file = .holds w ∧ s1.reg ≤ w ∧ w ≤ s2.reg := by
+  intro s1 s2 hm1 hfin hd
+  obtain ⟨hi1, hf1⟩ := fileInv_runC_from (init f t v) as (by rw [erase_init]; exact inv_init f t 0) (fileInv_init f t v)
+  have he1 : ExitInv s1.reg s1 := by
+    unfold ExitInv
+    rcases hm1 with h | h | h <;> rw [h] <;> exact Nat.le_refl _
+  have he2 : ExitInv s1.reg s2 := by
+    show ExitInv s1.reg (runC (init f t v) (as ++ bs))
+    rw [runC_append]
+    exact exitInv_runC_from s1.reg s1 bs hi1 hf1 he1
+  have hf2 : FileInv s2 := fileInv_runC f t v (as ++ bs)
+  unfold ExitInv at he2
+  unfold FileInv at hf2
+  rw [show s2.main = .finished from hfin] at he2 hf2
+  exact ⟨s2.fsnap, (hf2 hd).2, he2 hd, (hf2 hd).1⟩
+
+/-- **The saver survives churn, and keeps its cadence.**  Whatever other tasks do to the registry and whenever, as
+long as `stop` has not cancelled it the saver task is alive, its saves began exactly at `t0, t0 + I, t0 + 2I, …`, and
+whenever it has nothing left to do at the current instant at least `⌊T / SAVE_INTERVAL⌋ + 1` saves have been started
+within `[t0, t0 + T]` for every stretch `T` that has passed. -/
+theorem churn_saver_survives (f : Faults) (t v : Nat) (cs : List ChoiceC) :
+    let s := runC (init f t v) cs
+    s.started = true → s.cancelReq = false →
+    s.saver.alive = true ∧
+    s.saveStarts = ((List.range s.saveStarts.length).map fun k => s.t0 + k * interval) ∧
+    (saverRunnable s = false → ∀ T, s.t0 + T ≤ s.now → T / interval + 1 ≤ startsWithin s T) := by
+  intro s hst hc
+  obtain ⟨_, hsv, hcr, hnow, ht0, hss, hstd, _⟩ := ctl_runC f t v cs
+  have hst' : (run (init f t 0) (baseOf cs)).started = true := hstd ▸ hst
+  have hc' : (run (init f t 0) (baseOf cs)).cancelReq = false := hcr ▸ hc
+  obtain ⟨h1, h2⟩ := saves_on_the_grid f t 0 (baseOf cs) hst' hc'
+  refine ⟨hsv ▸ h1, ?_, fun hr T hT => ?_⟩
+  · show s.saveStarts = _
+    rw [hss, ht0]; exact h2
+  · have hr' : saverRunnable (run (init f t 0) (baseOf cs)) = false := by
+      unfold saverRunnable at hr ⊢
+      rw [← hsv, ← hcr, ← hnow]; exact hr
+    have := cadence f t 0 (baseOf cs) hst' hc' hr' T (by rw [← ht0, ← hnow]; exact hT)
+    unfold startsWithin at this ⊢
+    rw [hss, ht0]; exact this
+
 /-! ### Non-vacuity: concrete schedules -/
+
+/-- Another task adds a node while the saver is inside `write` of its entry save, one while `stop` waits for the
+cancelled saver, one while the final save is inside `open`: the entry save wrote version 0, the final save's snapshot
+(version 2) is what the file holds, and the registry has moved on to version 3. -/
+example :
+    let s := runC (init {})
+      [.base .main, .base .main, .base .main, .base (.saver true), .base (.saver true), .churn, .base (.saver true),
+       .base (.saver true), .base .main, .base .main, .base .main, .churn, .base (.saver true), .base .main, .churn,
+       .base .main, .base .main, .base .main]
+    s.main = .finished ∧ s.saver.alive = false ∧ s.finalSaveDone = true ∧ s.file = .holds 2 ∧ s.reg = 3 ∧
+    s.outcome = none := by
+  decide
+
 
 /-- Exit before the saver first ran: the task is cancelled unstarted, the final save still happens. -/
 example :
